@@ -58,6 +58,12 @@ Universe(tier) ==
   \cup { [cont |-> "class-methods", decls |-> t] : t \in Triples(MethodShapes(tier)) }
   \cup { [cont |-> "class-attrs", decls |-> t] : t \in Triples(AttrShapes(tier)) }
   \cup { [cont |-> "module-classes", decls |-> t] : t \in Triples(ClassShapes(tier)) }
+  \* functions and methods analysed with the NumPy docstring style: "@docset" is a parameter without hint whose type is a bare `set` in the
+  \* docstring - a set type all the same; every triple with at least one such declaration among a few plain shapes
+  \cup UNION { { [cont |-> c[1], decls |-> t]
+                  : t \in { x \in Triples({ Shape(c[2], TRUE, f) : f \in { {"@docset"}, {}, {"set"}, {"pmiss"}, {"tuple"}, {"variadic"} } })
+                           : \E j \in 1..3 : "@docset" \in x[j].f } }
+                : c \in { <<"module-doc", "fun">>, <<"class-methods-doc", "method">> } }
 
 VARIABLES sc, ip, toRaise, pending, todo, pc
 vars == <<sc, ip, toRaise, pending, todo, pc>>
